@@ -176,8 +176,8 @@ def gen_scenario(batch_seed, i, tier):
         # near-lockstep scheduling -- two clients inside the same function at the same time is where shared scratch
         # state (a module-level buffer, a dict in a closure, "current options" globals) shows
         threads, makes = _twin_threads(rng, nthreads, small)
-        kind = rng.choice(('roundrobin', 'roundrobin', 'fixed', 'geometric'))
-        mean = rng.choice((1, 1, 2, 3, 5, 8))
+        kind = rng.choice(('roundrobin', 'roundrobin', 'fixed', 'geometric', 'rendezvous', 'rendezvous'))
+        mean = rng.choice((1, 1, 2, 3, 5, 8)) if kind != 'rendezvous' else rng.choice((200, 1500, 8000))
         gran = 'line'
         if rng.random() < 0.3:
             # windows inside one source line need a switch between two bytecodes. A context switch of real threads costs
@@ -198,11 +198,13 @@ def gen_scenario(batch_seed, i, tier):
         mean *= 5
     if kind == 'bimodal':
         mean = min(mean, 12)
-    if kind == 'rendezvous' and gran != 'instr':
-        kind = 'geometric'
+
     policy = {'kind': kind, 'mean': mean, 'seed': rng.getrandbits(48), 'victim': rng.randrange(nthreads)}
     if kind == 'rendezvous':
-        policy.update(rv_prob=rng.choice((0.1, 0.25, 0.5)), tight=rng.choice((24, 40, 70)), patience=rng.choice((5000, 30000)))
+        if gran == 'instr':
+            policy.update(rv_prob=rng.choice((0.1, 0.25, 0.5)), tight=rng.choice((24, 40, 70)), patience=rng.choice((5000, 30000)))
+        else:   # line-granular rendezvous: cheap, so every point is a rendezvous; a dozen lines of tight alternation
+            policy.update(rv_prob=rng.choice((0.5, 1.0)), tight=rng.choice((6, 12, 25)), patience=rng.choice((2000, 10000)))
     faults = []
     if trace and rng.random() < 0.45:
         for _ in range(rng.randint(1, 3)):
